@@ -18,10 +18,10 @@ func genScaleDesc(p, u, s string, n int) string { return gen.ScaleDesc(p, u, s, 
 type construct struct {
 	name   string
 	ctx    int
-	lead   string   // opener bytes before the token starts
-	inTok  string   // opener bytes that belong to the token (doctype)
-	alpha  []string // body alphabet: the terminator bytes, NUL, filler, '<'
-	typ    int      // expected token type
+	lead   string                         // opener bytes before the token starts
+	inTok  string                         // opener bytes that belong to the token (doctype)
+	alpha  []string                       // body alphabet: the terminator bytes, NUL, filler, '<'
+	typ    int                            // expected token type
 	term   func(b string) (idx, tlen int) // index of first terminator in b and its length; idx<0 if none
 	reject func(b string) bool            // bodies that would select a different construct
 }
